@@ -78,6 +78,8 @@ Section Model.
   Variable derive : N -> content -> option D.          (* version -> bytes -> derived (None = exception) *)
 
   Inductive entry := EOk (k : ckey) (d : D) | EGarbage | EEmpty.
+  (* EEmpty stands for every entry file whose load raises something _load_item_cache does not catch: an empty file
+     (EOFError), a pickle that is not a sequence (TypeError) *)
 
   Definition files := list (fkey * file).
   Definition cache := list (ekey * entry).
@@ -230,6 +232,10 @@ Section Model.
   | OGet (obj : N) (c : coll) (h : href)                       (* Collection._get on the Collection object [obj] *)
   | OList (c : coll)                                           (* Collection._list *)
   | OUpload (obj : N) (c : coll) (h : href) (f : file) (d : D) (* Collection.upload *)
+  | OUploadFail (c : coll) (h : href) (f : file)               (* Collection.upload when writing the cache entry fails
+                                                                  (upload.py 59-63: the item file is already replaced; the
+                                                                  entry is only ever published by the rename at the end of
+                                                                  _atomic_write, so the old entry file is untouched) *)
   | OCreate (c : coll) (items : list (href * file * D))        (* Storage.create_collection with props *)
   | OMove (c : coll) (h : href) (c2 : coll) (h2 : href)        (* Storage.move *)
   | ODelete (c : coll) (h : href)                              (* Collection.delete(href) *)
@@ -258,6 +264,8 @@ Section Model.
         (* upload.py 64-70: history, then uploaded_item = self._get(href, verify_href=False) *)
         let '(a, evs, r') := exec_get g lk (mkRst (upload_write g (r_st r) c h f d) (r_cleaned r)) obj c h in
         (a, EvStore (key_of g f) :: evs, r')
+    | OUploadFail c h f =>
+        (RError, [], mkRst (mkSt (aput fkey_eqb (s_files (r_st r)) (c, h) f) (s_cache (r_st r))) (r_cleaned r))
     | OCreate c items => (RDone, [], mkRst (create_collection g (r_st r) c items) (r_cleaned r))
     | OMove c h c2 h2 => match move_item g (r_st r) c h c2 h2 with
                          | Some s' => (RDone, [], mkRst s' (r_cleaned r))
@@ -276,6 +284,7 @@ Section Model.
     | OGet _ c h => (RGet (cold g (flook fs c h)), fs)
     | OList c => (RNames (list_coll fs c), fs)
     | OUpload _ c h f _ => (RGet (cold g (Some f)), aput fkey_eqb fs (c, h) f)
+    | OUploadFail c h f => (RError, aput fkey_eqb fs (c, h) f)
     | OCreate c items => (RDone, bulk_files (filter (not_coll_file c) fs) c items)
     | OMove c h c2 h2 => match flook fs c h with
                          | None => (RError, fs)
